@@ -188,14 +188,13 @@ func mergeASAACLs(ab *cmdsPair, name, prefix string) {
 	if len(appendACL) > 0 {
 		// Add ACL lines marked with [APPEND] behind last permit line.
 		// Find last permit line within entries from Netspoc.
-		i := len(acl) - 1
-		for ; i >= 0; i-- {
-			if strings.Contains(acl[i].parsed, "$NAME extended permit") {
-				i++
+		i := len(acl)
+		for ; i > len(prependACL); i-- {
+			if strings.Contains(acl[i-1].parsed, "$NAME extended permit") {
 				break
 			}
 		}
-		acl = append(acl[:i], append(appendACL, acl[i:]...)...)
+		acl = slices.Insert(acl, i, appendACL...)
 	}
 	// Store changed ACL.
 	ab.a.lookup[prefix][name] = acl
@@ -223,14 +222,13 @@ func mergeIOSACLs(ab *cmdsPair, name, prefix string) {
 	if len(appendACL) > 0 {
 		// Add ACL lines marked with [APPEND] behind last permit line.
 		// Find last permit line within entries from Netspoc.
-		i := len(acl) - 1
-		for ; i >= 0; i-- {
-			if strings.HasPrefix(acl[i].parsed, "permit ") {
-				i++
+		i := len(acl)
+		for ; i > len(prependACL); i-- {
+			if strings.HasPrefix(acl[i-1].parsed, "permit ") {
 				break
 			}
 		}
-		acl = append(acl[:i], append(appendACL, acl[i:]...)...)
+		acl = slices.Insert(acl, i, appendACL...)
 	}
 	// Store changed ACL.
 	b0 := ab.bCmds[0]
